@@ -434,6 +434,11 @@ func (dec *Decoder) ExpectAString(ptr *string) bool {
 	if dec.Literal(ptr) {
 		return true
 	}
+	if dec.err != nil {
+		// A literal has been refused: don't wait for an atom, the client is
+		// waiting for our reply
+		return false
+	}
 	// TODO: accept unquoted resp-specials
 	return dec.ExpectAtom(ptr)
 }
@@ -603,7 +608,7 @@ func (dec *Decoder) Literal(ptr *string) bool {
 				io.Copy(io.Discard, lit)
 			}
 			lit.cancel()
-			return false
+			return dec.returnErr(err)
 		}
 	}
 	var sb strings.Builder
